@@ -802,6 +802,8 @@ func TestVerif_C09(t *testing.T) {
 	res.Floor("stub_calls_checked", 1)
 	res.Floor("cert_queries_with_answer_from_keeper", 1)
 	res.Floor("tls13_handshakes", 1)
+	res.Floor("concurrent_genuine_served", 1)
+	res.Floor("concurrent_nongenuine_handshakes", 20)
 
 	seed := vs.Seed()
 	reg, err := vC09BuildRegistry(seed)
@@ -950,6 +952,9 @@ func TestVerif_C09(t *testing.T) {
 		ft, _ := firstTrouble.Load().(string)
 		res.Inconclusive(fmt.Sprintf("%d case(s) could not be judged (timeout / connect error), e.g. %s", trouble, ft))
 	}
+	// ---- concurrent phase: overlapping lookups on one gateway instance
+	vC09Concurrent(t, res, reg, vs.Scale(150, 3000))
+
 	res.Count("cert_queries_with_answer_from_keeper", int(atomic.LoadInt64(&reg.answered)))
 	res.Extra("cert_queries_total", atomic.LoadInt64(&reg.queries))
 
